@@ -1657,18 +1657,10 @@ namespace igris
 
         iterator insert(const_iterator pos, const T &value)
         {
-            // TODO insert optimization
             size_t _pos = pos - m_data;
-
-            reserve(m_size + 1);
-            m_size++;
-
-            iterator first = m_data + _pos;
-            iterator last = igris::prev((iterator)end());
-            igris::move_backward(first, last, (iterator)end());
-            *first = value;
-
-            return first;
+            size_t oldsize = open_gap(_pos, 1);
+            fill_gap(_pos, oldsize, value);
+            return m_data + _pos;
         }
 
         iterator insert(iterator pos, const_iterator first, const_iterator last)
@@ -1778,6 +1770,34 @@ namespace igris
         // }
 
     protected:
+        // Make room for n elements at index pos: the elements [pos, size) move
+        // n slots up and the size grows by n. Afterwards the slots of the gap
+        // below the returned old size hold moved-from objects (assign to them),
+        // the slots at or above it are raw memory (construct into them).
+        size_t open_gap(size_t pos, size_t n)
+        {
+            reserve(m_size + n);
+            size_t oldsize = m_size;
+            for (size_t i = oldsize; i-- > pos;)
+            {
+                if (i + n >= oldsize)
+                    igris::move_constructor(m_data + i + n,
+                                            igris::move(m_data[i]));
+                else
+                    m_data[i + n] = igris::move(m_data[i]);
+            }
+            m_size = oldsize + n;
+            return oldsize;
+        }
+
+        template <class U> void fill_gap(size_t idx, size_t oldsize, U &&value)
+        {
+            if (idx < oldsize)
+                m_data[idx] = igris::forward<U>(value);
+            else
+                igris::constructor(m_data + idx, igris::forward<U>(value));
+        }
+
         unsigned char changeBuffer(size_t sz)
         {
             size_t oldcapacity = m_capacity;
